@@ -52,6 +52,9 @@ def main():
     a = ap.parse_args()
     mut = Path(a.mutdir)
     patch = mut / "patch.diff"
+    import fcntl
+    lock = open("/tmp/seeded_eval.lock", "w")
+    fcntl.flock(lock, fcntl.LOCK_EX)        # one evaluation at a time: the scratch copies are shared
     refresh()
     meta = {"mutant": mut.name, "confirmed": False}
     try:
@@ -77,10 +80,12 @@ def main():
             rc, out = sh("cargo test --workspace --no-fail-fast --offline 2>&1 | grep 'test result'", cwd=EVAL_REPO)
             meta["tests"] = out.strip().split("\n")
             meta["tests_pass"] = all("0 failed" in l for l in meta["tests"]) and len(meta["tests"]) >= 2
-        changed = run_demo(EVAL_REPO / "target/debug/seed", demo) if demo.exists() else None
+        runs = [run_demo(EVAL_REPO / "target/debug/seed", demo) for _ in range(12)] if demo.exists() else []
+        changed = next((r for r in runs if r != base), runs[0] if runs else None)
         meta["demo_unchanged"] = base
         meta["demo_changed"] = changed
-        meta["demo_differs"] = base != changed
+        meta["demo_changed_distinct_outcomes_in_12_runs"] = len({json.dumps(r, sort_keys=True) for r in runs})
+        meta["demo_differs"] = any(r != base for r in runs)
         meta["confirmed"] = bool(meta["builds"] and meta.get("tests_pass", True) and meta["demo_differs"])
         results = {}
         for pid in [c for c in a.checks.split(",") if c]:
